@@ -18,9 +18,10 @@ Every construct falls into one of three classes:
   lenient       constructs for which the RFCs allow either a 400 or one specific tolerant reading (obs-fold = SP,
                 CR/LF/NUL inside a field value replaced by SP, whitespace-separated request line, empty lines before
                 the request line, HTTP/x.y other than 1.0/1.1, target bytes outside the URI alphabet, Content-Length
-                list of identical values, empty list members, `identity`, Transfer-Encoding on HTTP/1.0, BWS or
-                free-form text in a chunk extension, malformed trailer fields, absurdly long numerals).  For these the
-                check accepts a 400 or exactly the tolerant reading, never anything else.
+                list of identical values, empty list members, `identity` without a Content-Length (RFC 2616's no-op
+                coding), Transfer-Encoding on HTTP/1.0, BWS or free-form text in a chunk extension, malformed trailer
+                fields, absurdly long numerals).  For these the check accepts a 400 or exactly the tolerant reading,
+                never anything else.  An exception escaping dataReceived is never acceptable.
 A request on a connection that need not persist (HTTP/1.0, Connection: close) may be the last one processed.
 When the stream ends inside a message nothing may be delivered for it; a 400 is then tolerated only if the bytes seen
 so far can no longer become a valid message.
@@ -37,6 +38,11 @@ try:  # independent HTTP/1.1 parser used as second oracle on well-formed streams
     import h11
 except Exception:  # pragma: no cover
     h11 = None
+
+# The property's wording ("invalid header value ... is answered with 400") read literally refuses CR, LF and NUL inside a
+# field value; RFC 9110 5.5 also permits replacing them by SP, which is what the reference tolerates.  Set to True for the
+# literal reading (the current tree then fails on `X: a<LF>Content-Length: 3`, which it delivers as one field).
+STRICT_FIELD_VALUES = False
 
 CRLF = b"\r\n"
 BAD = ("bad",)
@@ -224,6 +230,8 @@ class _Ref:
             v = f[1].strip(b" \t")
             if any((c < 0x20 and c != 9) or c == 0x7F for c in v):
                 # RFC 9110 5.5: CR, LF, NUL must be refused or replaced by SP; other controls may be retained
+                if STRICT_FIELD_VALUES and (b"\x00" in v or b"\r" in v or b"\n" in v):
+                    raise _Bad()
                 self.lenient()
                 v = v.translate(_WS).strip(b" \t")
             f[1] = v
